@@ -15,7 +15,7 @@ import traceback
 
 VERIF = os.path.dirname(os.path.dirname(os.path.abspath(__file__)))
 REPO = os.environ.get("MSCRIPT_REPO", "/repo")
-WORK = os.path.join(VERIF, ".work")
+WORK = os.environ.get("VERIF_WORK") or os.path.join(VERIF, ".work")   # override only for scratch mutation runs
 TARGET = os.path.join(WORK, "target")
 BIN = os.path.join(TARGET, "debug", "mscript")
 RUSTFLAGS = "--cfg mscript_verif --check-cfg cfg(mscript_verif)"
